@@ -1402,6 +1402,14 @@ func (fr *Frame) cutLoop(lp *Loop, pc *Term, st *State) (*Term, *State) {
 	// 2. havoc
 	st = st.clone()
 	ms := fr.loopModSet(lp, st)
+	if os.Getenv("GOVC_TRACE") != "" {
+		var ns []string
+		for n := range ms.names {
+			ns = append(ns, n)
+		}
+		sort.Strings(ns)
+		fmt.Fprintf(os.Stderr, "trace: %s loop %d modset all=%v names=%v cells=%d\n", shortFuncName(fr.fn), lp.Ordinal, ms.all, ns, len(ms.cells))
+	}
 	if ms.all {
 		x.havocAll(st)
 	}
